@@ -120,6 +120,8 @@ namespace _ST_PRIVATE
     {
         const char *cp = haystack;
         const char *ep = haystack + size;
+        if (needle_size == 0)
+            return nullptr;
         for ( ;; ) {
             cp = find_cs(cp, ep - cp, needle[0]);
             if (!cp || cp + needle_size > ep)
@@ -136,6 +138,8 @@ namespace _ST_PRIVATE
     {
         const char *cp = haystack;
         const char *ep = haystack + size;
+        if (needle_size == 0)
+            return nullptr;
         for ( ;; ) {
             cp = find_ci(cp, ep - cp, needle[0]);
             if (!cp || cp + needle_size > ep)
